@@ -216,6 +216,13 @@ func parseClientHello(buf []byte) (*clientHello, error) {
 		return nil, err
 	}
 	if hello.echExt != nil && hello.echExt.Type == 1 {
+		// The padding of an EncodedClientHelloInner follows the
+		// extensions inside the re-framed message.
+		for _, p := range s {
+			if p != 0 {
+				return nil, ErrIllegalParameter
+			}
+		}
 		for _, p := range zeros {
 			if p != 0 {
 				return nil, ErrIllegalParameter
